@@ -46,3 +46,32 @@ func TestRegFaultedSameSlotBatch(t *testing.T) {
 	}
 	vstat.One(t, prop, c, run)
 }
+
+// TestRegHugeTimestamps: remote authors may sign any timestamp; beyond 2^53 the store's
+// float64 number cannot hold it exactly. Values whose timestamps stay distinct after that
+// rounding must still converge (LWW), the live index must equal the index a restart
+// rebuilds from the database, and a live replica and a restarted one must not differ
+// (a seeded change that built the live index element from the exact int64 while storage
+// and the rebuild use the rounded number was not caught before this class existed).
+func TestRegHugeTimestamps(t *testing.T) {
+	outerT = t
+	c := baseCase()
+	c.Vals = []Val{
+		{Key: 1, Dev: 2, Acct: 0, TS: 1, Head: 0},
+		{Key: 1, Dev: 2, Acct: 0, Head: 0, Huge: 1},
+		{Key: 1, Dev: 2, Acct: 0, Head: 0, Huge: 1},
+		{Key: 1, Dev: 2, Acct: 1, Head: 1, Huge: 2},
+		{Key: 1, Dev: 2, Acct: 0, Head: 0, Huge: 3},
+		{Key: 0, Dev: 3, Acct: 0, Head: 0, Huge: 3},
+	}
+	c.Ops = []Op{
+		{K: "raw", S: 0, Items: []Item{{V: 0}, {V: 2}, {V: 1}}},
+		{K: "raw", S: 1, Via: 1, Items: []Item{{V: 1}, {V: 2}, {V: 1}}, Fault: true},
+		{K: "sync", S: 0, T: 1},
+		{K: "raw", S: 0, Items: []Item{{V: 4}, {V: 3}, {V: 5}}, Fault: true},
+		{K: "set", S: 0, Key: 1, Sleep: 1},
+		{K: "raw", S: 1, Items: []Item{{V: 3}}},
+		{K: "sync", S: 1, T: 0, N: 1, Fault: true},
+	}
+	vstat.One(t, prop, c, run)
+}
